@@ -169,6 +169,34 @@ def run_job(job):
                     }
                 except Exception as e:  # noqa
                     r["updates"][key] = {"_raised": type(e).__name__ + ": " + str(e)[:300]}
+        # readings produced by the filter's own sensor model, passed on as the objects they are:
+        #  (i) at the same estimate: the innovation is exactly zero, the update must still be the Kalman update;
+        #  (ii) at another estimate: passing the object itself or a copy of its values must not matter
+        r["own_readings"] = {}
+        for key in ekf.sensor_models:
+            try:
+                st2, cv2 = ekf.State(**p["state"]), ekf.Covariance.from_data(Pd.copy())
+                rd_self = ekf.sensor_models[key].model(st2)
+                names_r = [str(n) for n in ekf.sensor_models[key].readings]
+                vals = {n: float(v) for n, v in zip(names_r, rd_self.data[:, 0])}
+                u = ekf.sensor_model(st2, cv2, sensor_key=key, sensor_reading=rd_self)
+                rec = {"reading": vals, "state": {str(n): float(v) for n, v in zip(ekf.arglist_state, u.state.data[:, 0])},
+                       "cov": [[float(x) for x in row] for row in u.covariance.data],
+                       "innovation": [float(v) for v in ekf.innovations[key][:, 0]] if key in ekf.innovations else None}
+                other = ekf.State(**{k_: v + 0.5 for k_, v in p["state"].items()})
+                rd_other = ekf.sensor_models[key].model(other)
+                vals_o = rd_other.data.copy()
+                ua = ekf.sensor_model(st2, cv2, sensor_key=key, sensor_reading=rd_other)
+                inn_a = ekf.innovations[key].copy() if key in ekf.innovations else None
+                uc = ekf.sensor_model(st2, cv2, sensor_key=key, sensor_reading=ekf.make_reading(key, data=vals_o))
+                inn_c = ekf.innovations[key].copy() if key in ekf.innovations else None
+                rec["alias_consistent"] = bool(np.array_equal(ua.state.data, uc.state.data) and np.array_equal(ua.covariance.data, uc.covariance.data)
+                                               and (inn_a is None) == (inn_c is None) and (inn_a is None or np.array_equal(inn_a, inn_c)))
+                rec["alias"] = {"object": [float(v) for v in ua.state.data[:, 0]], "copy": [float(v) for v in uc.state.data[:, 0]],
+                                "reading_values": [float(v) for v in vals_o[:, 0]]}
+                r["own_readings"][key] = rec
+            except Exception as e:  # noqa
+                r["own_readings"][key] = {"_raised": type(e).__name__ + ": " + str(e)[:300]}
         try:
             r["oracle"] = oracle(defn, syms, p, job.get("k"))
             if not all_finite(r["oracle"]):
